@@ -56,8 +56,11 @@ func genTree(c *core.Ctx, depth int, scalarsOnly bool) map[string]any {
 			m[k] = c.Rng.Intn(2) == 0
 		case x == 5 && !scalarsOnly:
 			m[k] = []any{c.Rng.Intn(9), c.Rng.Intn(9)}
+		case x == 6 && c.Rng.Intn(3) == 0:
+			m[k] = "" // an empty value is a value: it overrides (clears) what an earlier source supplied
 		default:
-			m[k] = "w" + fmt.Sprint(c.Rng.Intn(100))
+			// command-line values may contain '=' themselves (DSNs, base64 padding)
+			m[k] = []string{"w", "w", "w", "q=", "a==b", "x?y=1&z="}[c.Rng.Intn(6)] + fmt.Sprint(c.Rng.Intn(100))
 		}
 	}
 	return m
@@ -356,6 +359,15 @@ func (p c15) Run(c *core.Ctx) {
 		holder = world.NewHolder(world.BuildStruct(fields))
 		extra = append(extra, holder)
 	}
+	// a configured file that does not exist: either the start fails loudly, or - if the container chooses to
+	// tolerate it - every other source is still applied
+	missingFile := !many && c.Rng.Intn(10) == 0
+	if missingFile {
+		at := c.Rng.Intn(len(opts) + 1)
+		opts = append(opts[:at:at], append([]app.SettingOption{app.SetConfig(filepath.Join(tmpDir, fmt.Sprintf("c15-missing-%d.yaml", c.Index)))}, opts[at:]...)...)
+		seqDesc = append(seqDesc, fmt.Sprintf("SetConfig(<missing file>) at position %d", at))
+		c.Count("cases_with_a_missing_config_file", 1)
+	}
 	r := world.Build(&world.Scenario{}, world.Options{Extra: extra, AppOptions: opts})
 	probes := 0
 	for _, s := range srcs {
@@ -399,6 +411,9 @@ func (p c15) Run(c *core.Ctx) {
 		}
 		c.Fail(class, msg, desc())
 		return true
+	}
+	if missingFile && r.Outcome() == "error" {
+		return // failing loudly is fine
 	}
 	if r.Outcome() != "ok" {
 		// a prefix-bound field may fail to decode when the merge left a value of another type there
